@@ -2,8 +2,10 @@ package main
 
 import (
 	"errors"
+	"fmt"
 	"hash/fnv"
 	"sort"
+	"sync/atomic"
 
 	"github.com/onflow/atree"
 )
@@ -49,14 +51,88 @@ type Ledger struct {
 	QuietViolations []string
 
 	bytesRetrieved, bytesStored int
+
+	// viaAPI: storages created over this ledger reach it through the library's own register adapter
+	// (atree.NewLedgerBaseStorage over the owner/key interface) instead of using it as the BaseStorage directly
+	viaAPI bool
+}
+
+// ledgerViaAPI is set per case (runCase): every Ledger created while it is true sits behind atree.LedgerBaseStorage.
+var ledgerViaAPI bool
+
+// ledgerAPICalls counts register accesses that went through atree.LedgerBaseStorage (evidence counter; atomic because
+// C16 runs private storages on several goroutines).
+var ledgerAPICalls atomic.Int64
+
+// ledgerAPI exposes a Ledger through the owner/key register interface (atree.Ledger). It decodes the register key
+// on its own ("$" followed by the 8 index bytes), so a wrong key derivation in the library shows up as content filed
+// under the wrong identifier, a key it does not recognise as an M-quiet violation.
+type ledgerAPI struct{ l *Ledger }
+
+var _ atree.Ledger = &ledgerAPI{}
+
+func (a *ledgerAPI) id(owner, key []byte) (atree.SlabID, bool) {
+	ledgerAPICalls.Add(1)
+	if len(owner) != 8 || len(key) != 9 || key[0] != '$' {
+		a.l.QuietViolations = append(a.l.QuietViolations, fmt.Sprintf("register access with malformed owner/key: owner=%x key=%q", owner, key))
+		return atree.SlabID{}, false
+	}
+	if !atree.LedgerKeyIsSlabKey(string(key)) {
+		a.l.QuietViolations = append(a.l.QuietViolations, fmt.Sprintf("LedgerKeyIsSlabKey rejects the slab register key %q", key))
+	}
+	var ad atree.Address
+	var ix atree.SlabIndex
+	copy(ad[:], owner)
+	copy(ix[:], key[1:])
+	return atree.NewSlabID(ad, ix), true
+}
+
+func (a *ledgerAPI) GetValue(owner, key []byte) ([]byte, error) {
+	id, ok := a.id(owner, key)
+	if !ok {
+		return nil, nil
+	}
+	v, _, err := a.l.Retrieve(id)
+	return v, err
+}
+
+func (a *ledgerAPI) SetValue(owner, key, value []byte) error {
+	id, ok := a.id(owner, key)
+	if !ok {
+		return nil
+	}
+	if len(value) == 0 {
+		return a.l.Remove(id)
+	}
+	return a.l.Store(id, value)
+}
+
+func (a *ledgerAPI) ValueExists(owner, key []byte) (bool, error) {
+	id, ok := a.id(owner, key)
+	if !ok {
+		return false, nil
+	}
+	_, found := a.l.regs[id]
+	return found, nil
+}
+
+func (a *ledgerAPI) AllocateSlabIndex(owner []byte) (atree.SlabIndex, error) {
+	var ad atree.Address
+	copy(ad[:], owner)
+	id, err := a.l.GenerateSlabID(ad)
+	if err != nil {
+		return atree.SlabIndex{}, err
+	}
+	return id.Index(), nil
 }
 
 var _ atree.BaseStorage = &Ledger{}
 
 func NewLedger() *Ledger {
 	return &Ledger{
-		regs:  make(map[atree.SlabID][]byte),
-		index: make(map[atree.Address]uint64),
+		regs:   make(map[atree.SlabID][]byte),
+		index:  make(map[atree.Address]uint64),
+		viaAPI: ledgerViaAPI,
 	}
 }
 
